@@ -4,7 +4,7 @@ use super::common::*;
 use super::interval::{ChunkAddSpec, IntervalCheck, Judge};
 use super::{common_assumptions, Plan};
 use crate::envelope::*;
-use crate::exact::{exact_sum_products, Rat};
+use crate::exact::Rat;
 use crate::explore::Violation;
 use crate::report::Tier;
 use crate::subjects::*;
@@ -29,8 +29,36 @@ pub fn cov_alphabet(name: &str) -> Vec<(f64, f64)> {
 }
 
 pub fn judge_cov(items: &[(f64, f64)], obs: &Obs, cx: &ExactCache, board: &RatioBoard) -> Vec<Violation> {
-    let mut out = Vec::new();
     let n = items.len() as u64;
+    if n == 0 {
+        return judge_cov_core(0, None, obs, board, &|| format!("{items:?}"));
+    }
+    let xs: Vec<f64> = items.iter().map(|p| p.0).collect();
+    let ys: Vec<f64> = items.iter().map(|p| p.1).collect();
+    let ex = cx.get(&ms_of(&xs));
+    let ey = cx.get(&ms_of(&ys));
+    let rows: Vec<(Vec<f64>, u64)> = items.iter().map(|(x, y)| (vec![*x, *y], 1)).collect();
+    judge_cov_core(n, Some((&rows, &ex, &ey)), obs, board, &|| format!("{items:?}"))
+}
+
+/// the same oracle for a weighted multiset of pairs: ((x, y), multiplicity)
+pub fn judge_cov_mult(rows: &[((f64, f64), u64)], obs: &Obs, board: &RatioBoard) -> Vec<Violation> {
+    let n: u64 = rows.iter().map(|r| r.1).sum();
+    let r2: Vec<(Vec<f64>, u64)> = rows.iter().map(|((x, y), m)| (vec![*x, *y], *m)).collect();
+    let ex = crate::exact::ExactStats::new_weighted(&rows.iter().map(|((x, _), m)| (*x, *m)).collect::<Vec<_>>(), 2);
+    let ey = crate::exact::ExactStats::new_weighted(&rows.iter().map(|((_, y), m)| (*y, *m)).collect::<Vec<_>>(), 2);
+    judge_cov_core(n, Some((&r2, &ex, &ey)), obs, board, &|| format!("{rows:?} (pair, multiplicity)"))
+}
+
+fn judge_cov_core(
+    n: u64,
+    data: Option<(&Vec<(Vec<f64>, u64)>, &crate::exact::ExactStats, &crate::exact::ExactStats)>,
+    obs: &Obs,
+    board: &RatioBoard,
+    show: &dyn Fn() -> String,
+) -> Vec<Violation> {
+    use crate::exact::exact_sum_products_w;
+    let mut out = Vec::new();
     match &obs.len {
         Some(Ok(l)) if *l == n => {}
         l => out.push(Violation { sig: "Covariance.len:wrong".into(), detail: format!("len() = {l:?}, expected {n}") }),
@@ -39,31 +67,26 @@ pub fn judge_cov(items: &[(f64, f64)], obs: &Obs, cx: &ExactCache, board: &Ratio
         Some(Ok(e)) if *e == (n == 0) => {}
         e => out.push(Violation { sig: "Covariance.is_empty:wrong".into(), detail: format!("is_empty() = {e:?} with {n} pairs") }),
     }
-    if n == 0 {
-        return out;
-    }
-    let xs: Vec<f64> = items.iter().map(|p| p.0).collect();
-    let ys: Vec<f64> = items.iter().map(|p| p.1).collect();
-    let ex = cx.get(&ms_of(&xs));
-    let ey = cx.get(&ms_of(&ys));
-    let rows: Vec<Vec<f64>> = items.iter().map(|(x, y)| vec![*x, *y]).collect();
-    let sxy_raw = exact_sum_products(&rows, &[0, 1]);
-    let sx = exact_sum_products(&rows, &[0]);
-    let sy = exact_sum_products(&rows, &[1]);
+    let (rows, ex, ey) = match data {
+        None => return out,
+        Some(d) => d,
+    };
+    let sxy_raw = exact_sum_products_w(rows, &[0, 1]);
+    let sx = exact_sum_products_w(rows, &[0]);
+    let sy = exact_sum_products_w(rows, &[1]);
     // Sxy = Σxy − Σx·Σy/n
     let sxy: Rat = sxy_raw.sub(&sx.mul(&sy).div_u64(n));
     let nf = n as f64;
     let both_spread = ex.sigma > 0.0 && ey.sigma > 0.0;
     let kappa = ex.kappa.max(ey.kappa);
     let expect = |stat: Stat| -> Expect {
-        let coord = |s: Stat, e: &crate::exact::ExactStats| -> Expect { expect_moment(s, e) };
         match stat {
-            Stat::MeanX => coord(Stat::Mean, &ex),
-            Stat::MeanY => coord(Stat::Mean, &ey),
-            Stat::PopVarX => coord(Stat::PopVar, &ex),
-            Stat::PopVarY => coord(Stat::PopVar, &ey),
-            Stat::SampleVarX => coord(Stat::SampleVar, &ex),
-            Stat::SampleVarY => coord(Stat::SampleVar, &ey),
+            Stat::MeanX => expect_moment(Stat::Mean, ex),
+            Stat::MeanY => expect_moment(Stat::Mean, ey),
+            Stat::PopVarX => expect_moment(Stat::PopVar, ex),
+            Stat::PopVarY => expect_moment(Stat::PopVar, ey),
+            Stat::SampleVarX => expect_moment(Stat::SampleVar, ex),
+            Stat::SampleVarY => expect_moment(Stat::SampleVar, ey),
             Stat::PopCov | Stat::SampleCov | Stat::Pearson => {
                 if n == 1 {
                     return if stat == Stat::PopCov { Expect::Exactly(0.0) } else { Expect::Nan };
@@ -104,11 +127,10 @@ pub fn judge_cov(items: &[(f64, f64)], obs: &Obs, cx: &ExactCache, board: &Ratio
             };
             out.push(Violation {
                 sig: format!("Covariance.{}:{class}", stat.name()),
-                detail: format!("Covariance::{} = {} but expected {} for the pairs {:?}", stat.name(), val.show(), j.expected, items),
+                detail: format!("Covariance::{} = {} but expected {} for the pairs {}", stat.name(), val.show(), j.expected, show()),
             });
         }
     }
-    // |pearson| <= 1 up to the envelope follows from the envelope around an exact |r| <= 1
     out
 }
 
@@ -149,8 +171,21 @@ pub fn plan(tier: Tier) -> Plan {
     for a in ["corr", "collinear", "anticollinear", "off", "mixedmag", "corr-swapped", "off-swapped"] {
         checks.push(trees(a, if q { 5 } else { 6 }));
     }
+    for a in ["corr", "off"] {
+        let board = Arc::new(RatioBoard::new());
+        let mut al = cov_alphabet(a);
+        al.truncate(3);
+        checks.push(Box::new(super::longrun::DoublingPairs::<Covariance> {
+            prop: "C09",
+            alpha_name: a.into(),
+            alpha: al,
+            doublings: if q { 34 } else { 40 },
+            judge: Box::new(move |rows, obs| judge_cov_mult(rows, obs, &board)),
+            _t: Default::default(),
+        }));
+    }
     Plan {
-        rule: "add-only: every sequence over each pair alphabet (partially correlated, exactly collinear, anti-collinear, independent offsets 1e9/-1e6, mixed magnitudes 1e±30) and its swapped twin up to the depth bound; merge trees: the interval exploration of C02 over the same alphabets; all ten accessors judged against exact rational means, Sxx, Syy, Sxy; covariance/pearson judged when both coordinates have non-zero spread and kappa <= 1e12; non-trivial = at least two pairs".into(),
+        rule: "large n: chains built by merging an estimator with itself up to 34 (40) times and every cross merge of two chains, against the exact statistics of the weighted multiset of pairs (n up to 2^41, beyond the stated 10^6); AND add-only: every sequence over each pair alphabet (partially correlated, exactly collinear, anti-collinear, independent offsets 1e9/-1e6, mixed magnitudes 1e±30) and its swapped twin up to the depth bound; merge trees: the interval exploration of C02 over the same alphabets; all ten accessors judged against exact rational means, Sxx, Syy, Sxy; covariance/pearson judged when both coordinates have non-zero spread and kappa <= 1e12; non-trivial = at least two pairs".into(),
         assumptions: common_assumptions(),
         checks,
     }
